@@ -117,6 +117,8 @@ def row_task(task):
     def once(rng):
         clear_proposal_dist_caches()
         tree, _ = gen.build_tree(f, data)
+        if cfg.get("relabel"):
+            tree.relabel_nodes()  # clone names in pre-order (0 = first top-level clone), as the run loop hands trees on
         if cfg.get("warm_alpha"):
             # call history: the same kernel, samplers and tree distribution first run a few updates under another
             # concentration value (seeded numpy generator), then the value is changed in place -- as the run loop's
